@@ -57,15 +57,19 @@ extern uint32_t w_st_calls, w_bc_calls;
 extern int32_t w_bc_len_sum; /* bytes accounted for the consumed copy records */
 extern int g_stateless;
 extern uint32_t w_dec_calls; /* decoder + literal-block + header calls (canary help only) */
+/* audit round 2 (K2, K4, K6): FDICT / DICTID as parsed by the zlib header stub, one call counter per trailer checker */
+extern uint32_t g_zhdr_dict_flag, g_zhdr_dict_id, w_chk_gz_calls, w_chk_zl_calls;
+#define ID_A2(...) __VA_ARGS__ /* clauses added after audit round 2 */
 
 #define ID_GHOSTS                                                                                  \
         g_out0, g_ck_sum, g_ck_calls, g_ck_contig, w_chk_calls, w_chk_used, w_fin_calls, w_chk_ret, \
                 w_ni, w_ai, w_ril, w_cp_calls, w_cp_len, w_cp_dst, w_cp_src, w_st_calls,           \
-                w_bc_calls, w_bc_len_sum, g_stateless, w_dec_calls
+                w_bc_calls, w_bc_len_sum, g_stateless, w_dec_calls ID_A2(, g_zhdr_dict_flag, g_zhdr_dict_id, w_chk_gz_calls, w_chk_zl_calls)
 #define ID_GHOSTS_ZERO                                                                             \
         (g_ck_sum == 0 && g_ck_calls == 0 && g_ck_contig == 1 && w_chk_calls == 0 &&               \
          w_chk_used == 0 && w_fin_calls == 0 && w_cp_calls == 0 && w_st_calls == 0 &&              \
-         w_bc_calls == 0 && w_bc_len_sum == 0 && w_dec_calls == 0)
+         w_bc_calls == 0 && w_bc_len_sum == 0 && w_dec_calls == 0                                 \
+         ID_A2(&& g_zhdr_dict_flag == 0 && w_chk_gz_calls == 0 && w_chk_zl_calls == 0))
 
 #define ID_RET __CPROVER_return_value
 #define ID_LEN_OK(s) ((s)->read_in_length >= 0 && (s)->read_in_length <= 64)
@@ -205,7 +209,7 @@ decode_huffman_code_block_stateless(struct inflate_state *state, uint8_t *start_
  * Preconditions = what the driver owes (C11): every byte delivered in this call has been handed to
  * update_checksum before the comparison (no byte after the last range), and nothing is still waiting in
  * tmp_out_buffer; stateless: the bit buffer has been rewound first (the trailer is read from next_in). */
-#define ID_CHECK_CONTRACT                                                                          \
+#define ID_CHECK_CONTRACT(CNT)                                                                     \
         __CPROVER_requires(state->next_out == g_out0 + g_ck_sum && g_ck_contig)                    \
         __CPROVER_requires(g_stateless || state->tmp_out_valid == state->tmp_out_processed)        \
         /* the trailer is looked at only after the final block has been decoded completely */      \
@@ -217,7 +221,8 @@ decode_huffman_code_block_stateless(struct inflate_state *state, uint8_t *start_
                             state->avail_in == w_ai + (uint32_t) (w_ril / 8)))                     \
         __CPROVER_requires(ID_LEN_OK(state))                                                       \
         __CPROVER_assigns(ID_IN_FRAME, state->tmp_in_size, state->block_state, w_chk_calls,        \
-                          w_chk_used, w_chk_ret)                                                   \
+                          w_chk_used, w_chk_ret ID_A2(, CNT))                                      \
+        ID_A2(__CPROVER_ensures(CNT == __CPROVER_old(CNT) + 1))                                    \
         __CPROVER_ensures(ID_RET == ISAL_DECOMP_OK || ID_RET == ISAL_END_INPUT ||                  \
                           ID_RET == ISAL_INCORRECT_CHECKSUM)                                       \
         __CPROVER_ensures(state->block_state ==                                                    \
@@ -225,8 +230,14 @@ decode_huffman_code_block_stateless(struct inflate_state *state, uint8_t *start_
         __CPROVER_ensures(ID_IN_FORWARD(state) && ID_LEN_OK(state))                                \
         __CPROVER_ensures(w_chk_calls == __CPROVER_old(w_chk_calls) + 1 && w_chk_ret == ID_RET &&  \
                           w_chk_used == __CPROVER_old(state->avail_in) - state->avail_in)
-#define C_check_gzip_checksum ID_CHECK_CONTRACT
-#define C_check_zlib_checksum ID_CHECK_CONTRACT
+#define C_check_gzip_checksum ID_CHECK_CONTRACT(w_chk_gz_calls)
+#define C_check_zlib_checksum ID_CHECK_CONTRACT(w_chk_zl_calls)
+#define ID_IS_GZ_KIND(f) ((f) == ISAL_GZIP || (f) == ISAL_GZIP_NO_HDR || (f) == ISAL_GZIP_NO_HDR_VER)
+/* K2: the trailer of a zlib-kind stream is never compared by the gzip checker and vice versa */
+#define ID_CHECKER_KIND                                                                            \
+        ((ID_IS_ZL(state->crc_flag) ==> w_chk_gz_calls == 0) &&                                    \
+         (ID_IS_GZ_KIND(state->crc_flag) ==> w_chk_zl_calls == 0) &&                               \
+         w_chk_gz_calls + w_chk_zl_calls == w_chk_calls)
 
 /* wrapper headers: mirror C_isal_read_gzip_header / C_isal_read_zlib_header (igzip_hdr_read.h) */
 #define C_isal_read_gzip_header                                                                    \
@@ -254,7 +265,12 @@ decode_huffman_code_block_stateless(struct inflate_state *state, uint8_t *start_
 #define C_isal_read_zlib_header                                                                    \
         __CPROVER_assigns(state->next_in, state->avail_in, state->tmp_in_size, state->block_state, \
                           state->wrapper_flag, zlib_hdr->info, zlib_hdr->level,                    \
-                          zlib_hdr->dict_flag, zlib_hdr->dict_id, ID_WIT)                          \
+                          zlib_hdr->dict_flag, zlib_hdr->dict_id, ID_WIT                           \
+                          ID_A2(, g_zhdr_dict_flag, g_zhdr_dict_id))                               \
+        /* ghost copy of what the header said: FDICT (only for a completely parsed header) and DICTID */ \
+        ID_A2(__CPROVER_ensures(g_zhdr_dict_flag ==                                                \
+                                ((ID_RET == ISAL_DECOMP_OK && zlib_hdr->dict_flag != 0) ? 1u : 0u) && \
+                                g_zhdr_dict_id == zlib_hdr->dict_id))                              \
         __CPROVER_ensures(ID_RET == ISAL_DECOMP_OK || ID_RET == ISAL_END_INPUT ||                  \
                           ID_RET == ISAL_UNSUPPORTED_METHOD || ID_RET == ISAL_INCORRECT_CHECKSUM)  \
         __CPROVER_ensures(ID_RET == ISAL_DECOMP_OK ==>                                             \
@@ -356,6 +372,10 @@ verif_copy_stub(void *d, const void *s, size_t n)
                           (w_chk_calls == 1 && w_chk_ret == ISAL_DECOMP_OK))                       \
         __CPROVER_ensures(w_chk_calls <= 1 && (w_chk_calls == 1 ==> (ID_RET == w_chk_ret && ID_IS_VER(state->crc_flag)))) \
         __CPROVER_ensures(w_fin_calls == ((g_ck_calls == 1 && ID_IS_ZL(state->crc_flag)) ? 1u : 0u)) \
+        /* K6: a zlib stream that announces a preset dictionary is refused before any block is touched */ \
+        ID_A2(__CPROVER_ensures(g_zhdr_dict_flag ==> (ID_RET == ISAL_NEED_DICT && w_dec_calls == 1))) \
+        ID_A2(__CPROVER_ensures(ID_RET == ISAL_NEED_DICT ==> g_zhdr_dict_flag))                    \
+        ID_A2(__CPROVER_ensures(ID_CHECKER_KIND))                                                  \
         /* the caller's mode is not changed */                                                     \
         __CPROVER_ensures(state->crc_flag == __CPROVER_old(state->crc_flag))
 #define E_isal_inflate_stateless                                                                   \
@@ -484,6 +504,12 @@ verif_copy_stub(void *d, const void *s, size_t n)
         /* a wrapper header that is not complete / not valid: nothing is decoded or delivered */   \
         __CPROVER_ensures((ID_HDR_BRANCH && state->wrapper_flag == 0) ==>                          \
                           (g_ck_calls == 0 && w_cp_calls == 0 && state->next_out == ID_OLD(next_out))) \
+        /* K4/K6: preset dictionary announced: NEED_DICT, with DICTID stored for the caller, nothing decoded */ \
+        ID_A2(__CPROVER_ensures(g_zhdr_dict_flag ==> (ID_RET == ISAL_NEED_DICT && w_dec_calls == 1 && \
+                                                      state->dict_id == g_zhdr_dict_id)))          \
+        ID_A2(__CPROVER_ensures(ID_RET == ISAL_NEED_DICT ==> g_zhdr_dict_flag))                    \
+        /* K2 */                                                                                   \
+        ID_A2(__CPROVER_ensures(ID_CHECKER_KIND))                                                  \
         __CPROVER_ensures(state->crc_flag == ID_OLD(crc_flag))
 #define E_isal_inflate                                                                             \
         uint32_t t0__ = state->total_out; /* ghost local: total_out at entry */                    \
